@@ -1,5 +1,6 @@
 import ObiVerif.Model.Tag
 import ObiVerif.Model.TagSel
+import ObiVerif.Model.TagV
 import ObiVerif.Driver.Util
 /-!
 line protocol for C15 (see `harness/c15.go`)
@@ -24,6 +25,14 @@ selection loop on the TEXT of the indices built by the model of `IndexSequence` 
 ```
 qg A maxlen / qgn A k                                           -> count minslack sumslack
 ```
+```
+fv1|fv2 Q R1,… | o…                       -> as fc   (findClosestsV: every kernel call VERBATIM, nothing measured)
+iv  s R1,… T1,… id:parent,… | o…          -> as ix   (indexSequenceV)
+dv1|dv2 Q R1,… T1,… id:parent,… | o… | o… | …  -> as id   (findClosestsV + indexSequenceV + text selection loop)
+```
+the `*v` operations get NOTHING from the real kernels: only the candidate order(s) of the real (unstable) sort; the
+model runs the verbatim `FastLCSEGFScoreByte` (shared scratch buffer), `D1Or0`, byte comparison of `Model/TagV.lean`
+itself — ambiguity codes included (the verbatim kernels are transcriptions, not readings).
 `-` = empty sequence, `_` = empty list.  After ` | ` : the candidate order of the code and the unbounded
 `lcs:alilength` of each reference (one section for the query, then one per indexed reference for `id*`).
 Lengths and shared 4-mer counts are recomputed here from the sequences.
@@ -93,7 +102,32 @@ def showIndex (idx : List (Nat × Nat)) : String :=
   if idx.isEmpty then "empty" else
   joinSp ((textIndex nameOf rankOf idx).reverse.map fun e => s!"{e.1}:{String.ofList e.2}")
 
-def variantOf (op : String) : Variant := if op = "fc2" ∨ op = "id2" ∨ op = "sl2" then .tag2 else .tag1
+def variantOf (op : String) : Variant :=
+  if op = "fc2" ∨ op = "id2" ∨ op = "sl2" ∨ op = "fv2" ∨ op = "dv2" then .tag2 else .tag1
+
+/-- a section holding only a candidate order; checked against the shared counts recomputed here -/
+def orderOnly (q : Bytes) (refs : List Bytes) (sec : String) : Option (List Nat) :=
+  match words sec with
+  | [o] => do
+    let o ← listOf String.toNat? o
+    let cs := mkCands q refs (refs.map fun _ => (0, 0))
+    if orderOk cs o then pure o else none
+  | _ => none
+
+def refFun (refs : List Bytes) : Nat → Bytes :=
+  let ra := refs.toArray
+  fun i => ra.getD i []
+
+def runFV (op q rs sec : String) : String :=
+  match unhex q, listOf unhex rs with
+  | some q, some refs =>
+    match orderOnly q refs sec with
+    | some o =>
+      match findClosestsV (variantOf op) q (refFun refs) o with
+      | .error _ => "panic"
+      | .ok fc => showFC fc
+    | none => "bad-data"
+  | _, _ => "bad-op"
 
 def runFC (op q rs sec : String) : String :=
   match unhex q, listOf unhex rs with
@@ -114,6 +148,48 @@ def runIX (s rs ts tx sec : String) : String :=
       | .ok idx => showIndex idx
       | .error e => showBad e
     | none => "bad-data"
+  | _, _, _, _ => "bad-op"
+
+def runIV (s rs ts tx sec : String) : String :=
+  match s.toNat?, listOf unhex rs, listOf String.toNat? ts, listOf pairOf tx with
+  | some s, some refs, some taxids, some nodes =>
+    if s ≥ refs.length ∨ taxids.length ≠ refs.length then "bad-op" else
+    match orderOnly (refs.getD s []) refs sec with
+    | some o =>
+      match indexSequenceV (mkTaxo nodes) (nodes.length + 1) taxids s (refFun refs) o with
+      | .error _ => "panic"
+      | .ok (.ok idx) => showIndex idx
+      | .ok (.error e) => showBad e
+    | none => "bad-data"
+  | _, _, _, _ => "bad-op"
+
+def runDV (op q rs ts tx : String) (secs : List String) : String :=
+  match unhex q, listOf unhex rs, listOf String.toNat? ts, listOf pairOf tx with
+  | some q, some refs, some taxids, some nodes =>
+    if taxids.length ≠ refs.length ∨ secs.length ≠ refs.length + 1 then "bad-op" else
+    match orderOnly q refs (secs.headD "") with
+    | none => "bad-data"
+    | some o =>
+      let rows := ((List.range refs.length).zip (secs.drop 1)).mapM fun (j, sec) => orderOnly (refs.getD j []) refs sec
+      match rows with
+      | none => "bad-data"
+      | some rows =>
+        let t := mkTaxo nodes
+        let fuel := nodes.length + 1
+        let rf := refFun refs
+        match findClosestsV (variantOf op) q rf o with
+        | .error _ => "panic"
+        | .ok fc =>
+          let indexT := fun b =>
+            match rows[b]? with
+            | some ob =>
+              match indexSequenceV t fuel taxids b rf ob with
+              | .error _ => .error .panic
+              | .ok r => r.map (textIndex nameOf rankOf)
+            | none => .error .panic
+          match identifyText t fuel fc indexT with
+          | .bad e => showBad e
+          | .ok z m n => s!"{z} {m} {n}"
   | _, _, _, _ => "bad-op"
 
 def runID (op q rs ts tx : String) (secs : List String) : String :=
@@ -274,6 +350,11 @@ def run (line : String) : String :=
     | ["fc1", q, rs], [sec] => runFC "fc1" q rs sec
     | ["fc2", q, rs], [sec] => runFC "fc2" q rs sec
     | ["ix", s, rs, ts, tx], [sec] => runIX s rs ts tx sec
+    | ["fv1", q, rs], [sec] => runFV "fv1" q rs sec
+    | ["fv2", q, rs], [sec] => runFV "fv2" q rs sec
+    | ["iv", s, rs, ts, tx], [sec] => runIV s rs ts tx sec
+    | ["dv1", q, rs, ts, tx], secs => runDV "dv1" q rs ts tx secs
+    | ["dv2", q, rs, ts, tx], secs => runDV "dv2" q rs ts tx secs
     | ["id1", q, rs, ts, tx], secs => runID "id1" q rs ts tx secs
     | ["id2", q, rs, ts, tx], secs => runID "id2" q rs ts tx secs
     | ["sl1", q, rs, ts, tx, ixs], [sec] => runSL "sl1" q rs ts tx ixs sec
